@@ -59,6 +59,16 @@ fn main() {
                 }
                 let fields: Vec<&str> = line.split('\t').collect();
                 let cut = fields.iter().position(|f| *f == "=>").unwrap_or(fields.len());
+                let cut = fields.iter().position(|f| *f == "@lbc").unwrap_or(cut).min(cut);
+                // cases that need the Unicode separator or optimal-fit are skipped by the
+                // build without those features
+                if !cfg!(feature = "full")
+                    && (fields[0] == "fwu"
+                        || fields[0] == "of"
+                        || fields[..cut].iter().any(|f| f.matches(';').count() == 7 && (f.contains(";u;") || f.contains(";of:"))))
+                {
+                    continue;
+                }
                 ops::replay(&fields[..cut], &mut out);
             }
         }
